@@ -205,8 +205,27 @@ fn check(acc: &mut Acc, spec: &ProgSpec, alpha: &Alphabet) {
     };
     let probes = probe_exprs();
     let mut reported = 0u64;
+    // An indirect branch may land inside the same function (jump tables): the analysis works on the CFG, whose
+    // edges after a branch instruction are its possible targets. `cont` explores those executions as well: the
+    // branch instruction changes no scalar and control continues along the CFG.
+    let has_branch = f.blocks().iter().any(|b| b.instructions().iter().any(|i| matches!(i.operation(), il::Operation::Branch { .. })));
+    let fx = {
+        let mut g = f.clone();
+        for b in g.blocks_mut() {
+            for i in b.instructions_mut() {
+                if matches!(i.operation(), il::Operation::Branch { .. }) {
+                    *i.operation_mut() = il::Operation::Nop { placeholder: None };
+                }
+            }
+        }
+        g
+    };
     for init in c12::inits() {
-        for havoc in [false, true] {
+        for (havoc, cont) in [(false, false), (true, false), (false, true), (true, true)] {
+            if cont && !has_branch {
+                continue;
+            }
+            let fe = if cont { &fx } else { &f };
             let mut st = init.clone();
             let mut loc = match Loc::entry(&f) {
                 Ok(l) => l,
@@ -260,7 +279,7 @@ fn check(acc: &mut Acc, spec: &ProgSpec, alpha: &Alphabet) {
                     }
                 }
                 let op = loc.instruction(&f).map(|i| i.operation().clone());
-                let step = refil::step(&f, &loc, &mut st, IntrinsicMode::Identity);
+                let step = refil::step(fe, &loc, &mut st, IntrinsicMode::Identity);
                 acc.count("transitions", 1);
                 if matches!(step, Step::Fault(_)) {
                     break;
